@@ -37,8 +37,17 @@ class Sym:
         self.made[name] = ("array", carrier, a)
         return a
 
+    def int(self, name, lo=None, hi=None):
+        from symx.symint import sym_int
+        v = sym_int(name, lo, hi)
+        self.made[name] = ("int", None, v)
+        return v
+
     def assume(self, cond_sv):
-        """restrict the carrier by a boolean SV / z3 Bool"""
+        """restrict the carrier by a boolean SV / SymBool / z3 Bool"""
+        from symx.symint import SymBool
+        if isinstance(cond_sv, SymBool):
+            cond_sv = cond_sv.e
         engine.assume(cond_sv.l if isinstance(cond_sv, SV) else cond_sv)
         return True
 
@@ -61,6 +70,9 @@ class Conc:
     def array(self, name, shape, carrier="real"):
         return self.values[name]
 
+    def int(self, name, lo=None, hi=None):
+        return int(self.values[name])
+
     def assume(self, cond):
         if not bool(cond):
             self.ok = False
@@ -80,6 +92,11 @@ def _cells(x):
         pass
     if isinstance(x, np.ndarray):
         return list(as_obj(x).ravel()), tuple(x.shape)
+    from symx.symint import SymBool, SymInt
+    if isinstance(x, SymInt):
+        return [SV("int", x.e)], ()
+    if isinstance(x, SymBool):
+        return [SV("bool", x.e)], ()
     if isinstance(x, (list, tuple)):
         out = []
         for y in x:
@@ -101,6 +118,8 @@ def _values_from_model(sym, model):
     for name, (kind, carrier, v) in sym.made.items():
         if kind == "scalar":
             vals[name] = sv_eval(v, model)
+        elif kind == "int":
+            vals[name] = model.eval(v.e, model_completion=True).as_long()
         else:
             dt = bool if carrier == "bool" else np.int64 if isinstance(carrier, tuple) else np.float64
             vals[name] = concretize(v, model, dt)
@@ -110,6 +129,8 @@ def _values_from_model(sym, model):
 def _nice(hyps, goal, sym, timeout_ms):
     cons = []
     for name, (kind, carrier, v) in sym.made.items():
+        if kind == "int":
+            continue
         cs = [v] if kind == "scalar" else list(as_obj(v).ravel())
         for c in cs:
             if c.k == "real":
@@ -125,7 +146,7 @@ def _nice(hyps, goal, sym, timeout_ms):
     return s.model() if s.check() == z3.sat else None
 
 
-def decide(label, ob, timeout_ms=20000, twin=False, max_paths=64, prove_defined=False):
+def decide(label, ob, timeout_ms=20000, twin=False, max_paths=64, prove_defined=False, known=()):
     install()
     t0 = time.time()
     out = dict(status="ok", label=label, detail="", paths=0, cells=0, nontrivial=False, solver_s=0.0, twin=None,
@@ -190,17 +211,33 @@ def decide(label, ob, timeout_ms=20000, twin=False, max_paths=64, prove_defined=
             return out
         if verdict == "sat":
             sym = c.notes_sym
-            rep = None
-            for m in (_try(lambda: _nice(hyps, goal, sym, timeout_ms)), model):
-                if m is None:
-                    continue
-                try:
-                    vals = _values_from_model(sym, m)
-                except Unsupported:
-                    continue
-                rep = replay(ob, vals)
-                if rep is not None:
-                    break
+            if known:
+                # two queries per listed finding: (not prop & pred) -> finding still present;
+                # (not prop & not any pred) -> a DIFFERENT violation of the same property
+                preds = []
+                for kid, pred_fn in known:
+                    try:
+                        pz = pred_fn(sym)
+                    except Exception:
+                        continue
+                    preds.append(pz)
+                    v1, m1, dt1 = engine.check_valid(hyps + [pz], goal, timeout_ms)
+                    out["solver_s"] += dt1
+                    if v1 == "sat" and _replays(ob, sym, hyps + [pz], goal, m1, timeout_ms) is not None:
+                        out.setdefault("known_present", []).append(kid)
+                if preds and out.get("known_present"):
+                    v2, m2, dt2 = engine.check_valid(hyps + [z3.Not(z3.Or(*preds))], goal, timeout_ms)
+                    out["solver_s"] += dt2
+                    if v2 == "unsat":
+                        out["discharged"] += 1
+                        out["status"] = "known"
+                        continue
+                    if v2 == "unknown":
+                        out.update(status="inconclusive", detail="solver unknown outside the known finding")
+                        return out
+                    model = m2
+                    hyps = hyps + [z3.Not(z3.Or(*preds))]
+            rep = _replays(ob, sym, hyps, goal, model, timeout_ms)
             if rep is None:
                 out.update(status="inconclusive", detail="solver model did not reproduce on concrete values")
                 return out
@@ -213,6 +250,20 @@ def decide(label, ob, timeout_ms=20000, twin=False, max_paths=64, prove_defined=
         out.update(status="declined", detail="all paths declined")
     out["wall_s"] = round(time.time() - t0, 3)
     return out
+
+
+def _replays(ob, sym, hyps, goal, model, timeout_ms):
+    for m in (_try(lambda: _nice(hyps, goal, sym, timeout_ms)), model):
+        if m is None:
+            continue
+        try:
+            vals = _values_from_model(sym, m)
+        except Unsupported:
+            continue
+        rep = replay(ob, vals)
+        if rep is not None:
+            return rep
+    return None
 
 
 def _try(f):
